@@ -61,4 +61,14 @@ example : judgeEv { conns := [1] } [.start, .cycle 1, .tConnect 1, .xErr "k1", .
 example : judgeEv { conns := [1] } [.start, .xDest (.obj 1) (.user 1), .cycle 1, .tConnect 1, .tLogon (.user 1), .cycle 2,
     .exitLoop, .hbs [], .refs 0 0, .slots 2] ≠ [] := by decide
 
+-- clause disconnect: net_dead for a user whose client never hung up (the stale event of another connection reached
+-- it); accepted when that client did close or reset
+example : clauseDisconnect { conns := [1, 2] } [.start, .cycle 1, .tConnect 1, .tLogon (.user 1), .cycle 2, .tConnect 2,
+    .tLogon (.user 2), .tNetdead (.user 2), .cycle 3, .exitLoop] ≠ [] := by decide
+example : judgeEv { conns := [1, 2], closed := [1] } [.start, .cycle 1, .tConnect 1, .tLogon (.user 1), .cycle 2,
+    .tNetdead (.user 1), .tConnect 2, .tLogon (.user 2), .tNetdead (.user 2), .cycle 3,
+    .exitLoop, .hbs [], .refs 0 0, .slots 0] ≠ [] := by decide
+example : clauseDisconnect { conns := [1, 2], closed := [2] } [.start, .cycle 1, .tConnect 1, .tLogon (.user 1), .cycle 2,
+    .tConnect 2, .tLogon (.user 2), .tNetdead (.user 2), .cycle 3, .exitLoop] = [] := by decide
+
 end NV.C09
